@@ -16,6 +16,7 @@ RULE = (
     "node is in flight, or a maximal-priority ready node is sequential; waits with a zero timeout (polls) never block and are not judged. The former known exception (blocking thread-kind wait "
     "directly after an async-kind wait with no dispatch in between, repaired by fix 8f7c4c9) is an ordinary violation (rule idle-K1) now. "
     "non-trivial = the case has >= 1 blocking wait with a free slot (justified) and >= 1 with in-flight == max_concurrency."
+    " Round 8-10 additions: unusable configuration entries (a refused configuration must not change the limit to a third value); environment axes."
 )
 ASSUMPTIONS = [
     "in-flight and ready are the scheduler's knowledge: dispatched minus observed-done, dependencies observed done",
